@@ -119,6 +119,12 @@ func specs() []*Spec {
 			Rule:   "E2 histories: every sequence of <= 2 (thorough 3) calls over a 19-operation alphabet (Sign pure/ctx/ph, Verify good/bad, ZIP-215 small-order, VerifyBatch of 4 good / 4 with one bad / 5 / 65 / 3, GenerateKey, NewKeyFromSeed, X25519 base / generic / low-order, both key conversions, Equal), each history in a FRESH process: every call's result == its result alone in a fresh process; content hash of every package-level variable of the five packages (registered by generated code) unchanged after every call. E3 schedules: 190 two-thread scenarios (every unordered pair of operations), 12 (thorough 24) three-thread scenarios, 12 scenarios of 2 threads x 2 calls, on a build whose every statement touching a package-level variable is preceded by a scheduler hook: discovery run with per-access content hashing finds written variables; a variable written by one call and accessed by a concurrent call is a data race (the library has no synchronisation); preemption-bounded DFS (bound 2, thorough 3) over call boundaries and accesses to written variables, each schedule in a fresh process, oracle = solo results and unchanged global state; with no written variable all access events commute and the executed call orders represent every interleaving. Auxiliary: the same scenarios free-running under the Go race detector. distinct = history / scenario.",
 			Assume: []string{"interleavings are explored at accesses to package-level variables (found by type-checking the current sources) and call boundaries; shared memory reached only through pointers smuggled into globals is seen by the content-hash invariant and the free-running race pass", "sequential consistency; the Go memory model's weaker orderings are not modelled"},
 		},
+		{
+			ID:     "C20",
+			Units:  []Unit{{Pkg: "extra/x25519", Job: "C20", Instr: "trace", Quick: []string{"default", "noasm", "force32bit", "appengine"}, Thorough: allCfg}},
+			Rule:   "E4 (2-safety by self-composition on traces): the five packages are rebuilt with every branch condition, short-circuit operand, switch tag, loop iteration, non-constant index / slice bound and variable-time primitive (bytes.Equal/Compare/...: leak model = lengths and common-prefix length) wrapped in logging identity functions (type-checked source instrumentation of the current tree). For each of 11 scenarios (NewKeyFromSeed, GenerateKey, Sign pure/ctx/ph, ScalarBaseMult, X25519(s, Basepoint), EdPrivateKeyToX25519, PrivateKey.Equal with the secret as receiver / as argument, Public/Seed) the public shape is fixed and the secret ranges over an alphabet (288 seeds: LE32(0..255), 0xff..ff, 32 hash-derived; thorough 4128; the nibble-pattern scalar alphabet for X25519: every digit value at every position; key pairs agreeing with the other key in the first j bytes, j in {0,1,2,16,31,32,33,62,63,64}); all executions of a scenario must produce one identical event trace; on a mismatch both runs are repeated with full logs and the first diverging site is reported. The assembly selector is checked by a straight-line scanner (allow-listed opcodes, no J*/CALL/LOOP, memory operands only const(R14), const(R15), name+const(FP), base registers never rewritten).",
+			Assume: []string{"control flow, indices and declared variable-time primitives of the library's own Go code; not micro-architectural timing, compiler code generation, or the standard library's internals (crypto/sha512, crypto/subtle, encoding/binary, math/bits are the trusted constant-time base)", "golang.org/x/crypto/curve25519 (generic X25519 ladder) is outside the instrumented code"},
+		},
 		// NEXT-SPEC
 		{
 			ID: "C04",
